@@ -248,9 +248,9 @@ def step (st : St) (line : String) : St × String :=
       | _ =>
         if out = "hang" then (st, "ORA the script did not finish (hang)")
         -- the transport refuses a rebuilt message that differs from its first transmission (`Invalid`): that must
-        -- never hit an honest (idempotent) builder - only the harness's `flaky=` builders and the handshakes whose
-        -- node certificate was replaced under them (`upd=`)
-        else if out.startsWith "err:Invalid" && !(w.any (fun t => t.startsWith "flaky=" || t.startsWith "upd=")) && w.getD 0 "" != "hs" then
+        -- never hit an honest (idempotent) builder - only the harness's `flaky=` / `flakyrel=` builders and the
+        -- handshakes whose node certificate was replaced under them (`upd=`)
+        else if out.startsWith "err:Invalid" && !(w.any (fun t => t.startsWith "flaky=" || t.startsWith "flakyrel=" || t.startsWith "upd=")) && w.getD 0 "" != "hs" then
           (st, "ORA the transport refused the retransmission of an idempotent builder (send failed with Invalid)")
         else (st, "ok")
     else
